@@ -80,6 +80,21 @@ AwaitResultNotDropped ==
     LET u == obs.updates[n] IN
     \A t \in u.got : AHas(u.rs, t) /\ AGet(u.rs, t) # None
 
+(* ---------------- C13 (refs) ---------------- *)
+RefsUnique == NoDup(obs.minted)
+
+(* ---------------- C14 ---------------- *)
+\* every resource the backend still holds open belongs to a process that has not finished
+ClosedAtExit ==
+  Quiescent => \A r \in backend.open : AHas(owner, r) /\ ~Done(AGet(owner, r))
+\* the backend never executes an operation on a resource for anybody but its recorded owner,
+\* and never closes a resource on behalf of a process that is still running
+BackendCallsLegal ==
+  \A n \in 1..Len(obs.backend) :
+    LET b == obs.backend[n] IN
+    b.call = "execute" /\ b.res # None => b.owner = None \/ b.owner = Some(b.p)
+OwnerKnown == \A r \in AKeys(owner) : AGet(owner, r) < nextPid
+
 (* ---------------- C15 ---------------- *)
 InternalErrors == {"StackUnderflow", "TypeMismatch", "FrameUnderflow", "CallInvalid",
                    "VariableUndefined", "FunctionUndefined", "FieldAccessInvalid"}
@@ -89,6 +104,7 @@ OwnFailure(p) ==
   LET P == proc[p]
       ops == Scripts[P.script]
   IN \/ P.pc <= Len(ops) /\ ops[P.pc].op = "fail" /\ P.result[1].e = ops[P.pc].e
+     \/ P.pc <= Len(ops) /\ ops[P.pc].op \in {"open", "use", "close"}
      \/ P.phase = "filter"                     \* died inside a filter body (forbidden operation)
 
 OpenAwaitTargets(p) ==
